@@ -579,97 +579,7 @@ func runC11(c *Ctx) {
 
 	c.Rule("R11.6", func() {
 		c.Floor("R11.6", 3)
-		var isFresh func(v ssa.Value, seen map[ssa.Value]bool) bool
-		isFresh = func(v ssa.Value, seen map[ssa.Value]bool) bool {
-			if seen[v] {
-				return true
-			}
-			seen[v] = true
-			switch v := v.(type) {
-			case *ssa.MakeSlice:
-				return true
-			case *ssa.Const:
-				return v.IsNil()
-			case *ssa.Alloc:
-				return true // a local array (slice literal, varargs)
-			case *ssa.Slice:
-				if v.Max != nil {
-					return true // capacity-limited: an append reallocates
-				}
-				return isFresh(v.X, seen)
-			case *ssa.Phi:
-				for _, e := range v.Edges {
-					if !isFresh(e, seen) {
-						return false
-					}
-				}
-				return true
-			case *ssa.ChangeType:
-				return isFresh(v.X, seen)
-			case *ssa.Call:
-				if IsCallTo(v, "builtin.append") {
-					return isFresh(v.Call.Args[0], seen)
-				}
-				switch CalleeName(&v.Call) {
-				case "slices.Clone", "slices.Concat", "slices.Collect", "slices.Sorted", "strings.Split", "strings.Fields", "slices.AppendSeq":
-					return CalleeName(&v.Call) != "slices.AppendSeq"
-				}
-				if callee := v.Call.StaticCallee(); callee != nil && FuncPkgPath(callee) == configPkg && callee.Blocks != nil {
-					for _, r := range Returns(callee) {
-						for _, res := range r.Results {
-							if _, isSlice := res.Type().Underlying().(*types.Slice); isSlice && !isFresh(res, seen) {
-								return false
-							}
-						}
-					}
-					return true
-				}
-				return false
-			}
-			return false
-		}
-		inPlace := map[string]bool{"slices.Compact": true, "slices.CompactFunc": true, "slices.Sort": true, "slices.SortFunc": true, "slices.SortStableFunc": true, "slices.Reverse": true,
-			"slices.Delete": true, "slices.DeleteFunc": true, "slices.Insert": true, "slices.Replace": true, "sort.Strings": true, "sort.Slice": true, "sort.SliceStable": true, "sort.Sort": true, "sort.Stable": true, "builtin.copy": true, "builtin.clear": true}
-		isStringList := func(t types.Type) bool {
-			sl, ok := t.Underlying().(*types.Slice)
-			if !ok {
-				return false
-			}
-			b, ok := sl.Elem().Underlying().(*types.Basic)
-			return ok && b.Kind() == types.String
-		}
-		nSites := 0
-		for _, fn := range c.ModuleFuncs() {
-			if FuncPkgPath(fn) != configPkg {
-				continue
-			}
-			n := 0
-			Instrs(fn, false, func(in ssa.Instruction) {
-				switch x := in.(type) {
-				case *ssa.Call:
-					name := CalleeName(&x.Call)
-					if name == "builtin.append" && isStringList(x.Type()) {
-						nSites++
-						c.SawFunc(fn.String())
-						c.Check(FuncKey(fn)+"::append-to-own-storage#"+itoa(n), x.Pos(), isFresh(x.Call.Args[0], map[ssa.Value]bool{}), "a configuration list may be grown only in storage this function allocated (make, a literal, slices.Clone, a capacity-limited slice): appending to a list received from outside writes into its spare capacity, which other packages' configurations share")
-						n++
-					} else if inPlace[name] && len(x.Call.Args) > 0 && isStringList(x.Call.Args[0].Type()) {
-						nSites++
-						c.Check(FuncKey(fn)+"::in-place-"+name[strings.LastIndex(name, ".")+1:]+"#"+itoa(n), x.Pos(), isFresh(x.Call.Args[0], map[ssa.Value]bool{}), "%s rewrites its argument in place; a configuration list received from outside may be shared with other packages' configurations", name)
-						n++
-					}
-				case *ssa.Store:
-					if ia, ok := x.Addr.(*ssa.IndexAddr); ok && isStringList(ia.X.Type()) {
-						nSites++
-						c.Check(FuncKey(fn)+"::element-store#"+itoa(n), x.Pos(), isFresh(ia.X, map[ssa.Value]bool{}), "an element of a configuration list received from outside is overwritten")
-						n++
-					}
-				}
-			})
-		}
-		if nSites < 3 {
-			c.Undecided("found only %d list-building sites in package config", nSites)
-		}
+		configListOwnershipObligations(c)
 	})
 
 }
@@ -695,4 +605,102 @@ func incOperand(bo *ssa.BinOp) (*ssa.Phi, bool) {
 		}
 	}
 	return nil, false
+}
+
+// configListOwnershipObligations: configuration lists never alias inherited
+// storage (shared by C11 R11.6 and C06 R6.9: config.Load runs concurrently in
+// package actions, so an in-place append into the default list's spare capacity
+// is also a data race).
+func configListOwnershipObligations(c *Ctx) {
+	var isFresh func(v ssa.Value, seen map[ssa.Value]bool) bool
+	isFresh = func(v ssa.Value, seen map[ssa.Value]bool) bool {
+		if seen[v] {
+			return true
+		}
+		seen[v] = true
+		switch v := v.(type) {
+		case *ssa.MakeSlice:
+			return true
+		case *ssa.Const:
+			return v.IsNil()
+		case *ssa.Alloc:
+			return true // a local array (slice literal, varargs)
+		case *ssa.Slice:
+			if v.Max != nil {
+				return true // capacity-limited: an append reallocates
+			}
+			return isFresh(v.X, seen)
+		case *ssa.Phi:
+			for _, e := range v.Edges {
+				if !isFresh(e, seen) {
+					return false
+				}
+			}
+			return true
+		case *ssa.ChangeType:
+			return isFresh(v.X, seen)
+		case *ssa.Call:
+			if IsCallTo(v, "builtin.append") {
+				return isFresh(v.Call.Args[0], seen)
+			}
+			switch CalleeName(&v.Call) {
+			case "slices.Clone", "slices.Concat", "slices.Collect", "slices.Sorted", "strings.Split", "strings.Fields", "slices.AppendSeq":
+				return CalleeName(&v.Call) != "slices.AppendSeq"
+			}
+			if callee := v.Call.StaticCallee(); callee != nil && FuncPkgPath(callee) == configPkg && callee.Blocks != nil {
+				for _, r := range Returns(callee) {
+					for _, res := range r.Results {
+						if _, isSlice := res.Type().Underlying().(*types.Slice); isSlice && !isFresh(res, seen) {
+							return false
+						}
+					}
+				}
+				return true
+			}
+			return false
+		}
+		return false
+	}
+	inPlace := map[string]bool{"slices.Compact": true, "slices.CompactFunc": true, "slices.Sort": true, "slices.SortFunc": true, "slices.SortStableFunc": true, "slices.Reverse": true,
+		"slices.Delete": true, "slices.DeleteFunc": true, "slices.Insert": true, "slices.Replace": true, "sort.Strings": true, "sort.Slice": true, "sort.SliceStable": true, "sort.Sort": true, "sort.Stable": true, "builtin.copy": true, "builtin.clear": true}
+	isStringList := func(t types.Type) bool {
+		sl, ok := t.Underlying().(*types.Slice)
+		if !ok {
+			return false
+		}
+		b, ok := sl.Elem().Underlying().(*types.Basic)
+		return ok && b.Kind() == types.String
+	}
+	nSites := 0
+	for _, fn := range c.ModuleFuncs() {
+		if FuncPkgPath(fn) != configPkg {
+			continue
+		}
+		n := 0
+		Instrs(fn, false, func(in ssa.Instruction) {
+			switch x := in.(type) {
+			case *ssa.Call:
+				name := CalleeName(&x.Call)
+				if name == "builtin.append" && isStringList(x.Type()) {
+					nSites++
+					c.SawFunc(fn.String())
+					c.Check(FuncKey(fn)+"::append-to-own-storage#"+itoa(n), x.Pos(), isFresh(x.Call.Args[0], map[ssa.Value]bool{}), "a configuration list may be grown only in storage this function allocated (make, a literal, slices.Clone, a capacity-limited slice): appending to a list received from outside writes into its spare capacity, which other packages' configurations share")
+					n++
+				} else if inPlace[name] && len(x.Call.Args) > 0 && isStringList(x.Call.Args[0].Type()) {
+					nSites++
+					c.Check(FuncKey(fn)+"::in-place-"+name[strings.LastIndex(name, ".")+1:]+"#"+itoa(n), x.Pos(), isFresh(x.Call.Args[0], map[ssa.Value]bool{}), "%s rewrites its argument in place; a configuration list received from outside may be shared with other packages' configurations", name)
+					n++
+				}
+			case *ssa.Store:
+				if ia, ok := x.Addr.(*ssa.IndexAddr); ok && isStringList(ia.X.Type()) {
+					nSites++
+					c.Check(FuncKey(fn)+"::element-store#"+itoa(n), x.Pos(), isFresh(ia.X, map[ssa.Value]bool{}), "an element of a configuration list received from outside is overwritten")
+					n++
+				}
+			}
+		})
+	}
+	if nSites < 3 {
+		c.Undecided("found only %d list-building sites in package config", nSites)
+	}
 }
